@@ -109,8 +109,10 @@ def oracle(fn, arg, out):
         if k > 0 and l and not (l.startswith(ind) or ind.startswith(l)):
             return 'continuation line %d does not start with the indent: %r' % (k, l)
         if len(l) > w:
+            # a legal break point is any whitespace after the indent (theorem wrap_width_strong):
+            # a line longer than the width must not contain one
             for p, c in enumerate(l):
-                if c.isspace() and len(ind) < p <= w:
+                if c.isspace() and len(ind) < p:
                     return 'line %d longer than width %d although it has a legal break at %d: %r' % (k, w, p, l)
     return None
 
